@@ -322,7 +322,7 @@ impl Check for C11 {
     fn units(&self, tier: Tier) -> Vec<Value> {
         let mut u = vec![];
         let other: Vec<(Option<u64>, Option<u64>)> = match tier {
-            Tier::Quick => vec![(None, None), (Some(50), Some(50))],
+            Tier::Quick => vec![(None, None), (Some(50), Some(50)), (Some(200), None), (None, Some(200))],
             Tier::Thorough => DEFAULTS.iter().flat_map(|a| DEFAULTS.iter().map(move |b| (*a, *b))).collect(),
         };
         for in_callee in DEFAULTS {
@@ -330,9 +330,7 @@ impl Check for C11 {
                 for (in_caller, out_callee) in &other {
                     for lat in [2u64, 5] {
                         for (user_layer, via_peer) in [(false, false), (true, true)] {
-                            if tier == Tier::Quick && lat == 5 && user_layer {
-                                continue;
-                            }
+                            let _ = tier;
                             u.push(json!({"in_callee":in_callee,"out_caller":out_caller,"in_caller":in_caller,"out_callee":out_callee,"lat_ms":lat,"user_layer":user_layer,"via_peer":via_peer}));
                         }
                     }
